@@ -278,3 +278,44 @@ def run_jax_variants(case, checkers=("beartype", "typeguard"), seed=0, prime=Non
             v["desc"] = f"{ck}/{name}"
             variants.append(v)
     return variants
+
+
+def run_jax_varkw(case, checkers=("beartype", "typeguard"), seed=0):
+    """C17: ONE annotation for all extra keyword arguments (`**kw: Ann`); the caller passes them in the case's order, jax's
+    transformations hand them on in sorted key order - the verdict must not care"""
+    import jax
+    import jax.numpy as jnp
+    import numpy as np
+    from . import render as R
+    st = L()
+    ann = R.dim_str(case["params"][0]["toks"])
+    retann = R.dim_str(case["rettoks"]) if case["hasret"] else None
+    names = [p["nm"] for p in case["params"]]
+    rng = np.random.RandomState(seed)
+    a = [jnp.asarray(np.asarray(rng.randn(*s), dtype="float32")) for s in case["shapes"]]
+    variants = []
+    for ck in checkers:
+        key = ("varkw", ann, retann, ck)
+        fn = _fn_cache.get(key)
+        if fn is None:
+            g = {"COUNTER": COUNTER, "RET": RET, "A": st["Float"][jax.Array, ann]}
+            rs = ""
+            if retann is not None:
+                g["R"] = st["Float"][jax.Array, retann]
+                rs = " -> R"
+            exec(f"def f(**kw: A){rs}:\n    COUNTER[0] += 1\n    return RET[0]\n", g)
+            fn = _fn_cache[key] = st["jaxtyped"](typechecker=st["checkers"][ck])(g["f"])
+        RET[0] = jnp.zeros(tuple(case["retshape"]), jnp.float32) if case["hasret"] else jnp.float32(0)
+        kw = {n: x for n, x in zip(names, a)}          # insertion order = the case's order
+        trans = {
+            "eager": lambda: fn(**kw),
+            "jit": lambda: jax.jit(lambda **k: fn(**k))(**kw),
+            "eval_shape": lambda: jax.eval_shape(lambda **k: fn(**k), **{n: jax.ShapeDtypeStruct(x.shape, x.dtype) for n, x in kw.items()}),
+            "vmap": lambda: jax.vmap(lambda k: fn(**k))({n: jnp.stack([x, x + 1]) for n, x in kw.items()}),
+            "jit_vmap": lambda: jax.jit(jax.vmap(lambda k: fn(**k)))({n: jnp.stack([x, x]) for n, x in kw.items()}),
+        }
+        for name, thunk in trans.items():
+            v = classify(lambda: thunk(), [], {}, "exact")
+            v["desc"] = f"{ck}/varkw/{name}"
+            variants.append(v)
+    return variants
